@@ -1,6 +1,7 @@
 import AFDriver.Wire
 import AFModel.FloatOps
 import AFModel.SamplesConv
+import AFModel.SamplesMore
 
 /-! Driver for C05: decodes a sampler's internal arrays, runs the conversion of
 `AFModel/SamplesConv.lean` on `Float`, answers the sample list, the best sample and (when a
@@ -44,8 +45,49 @@ def optFloatOfJson (j : Json) : Except String (Option Float) :=
 def natsOfJson (j : Json) : Except String (List Nat) := do
   (← j.getArr?).toList.mapM (·.getNat?)
 
+def pathsOfJson (j : Json) : Except String (List Path) := do
+  (← j.getArr?).toList.mapM fun p => do (← p.getArr?).toList.mapM (·.getStr?)
+
+def jsonOfKSample (s : KSample Path Float) : Json :=
+  Json.mkObj [("kw", Json.arr (s.kwargs.map (fun (k, v) => Json.arr #[jsonOfPath k, Json.str (hexOfFloat v)])).toArray),
+    ("ll", Json.str (hexOfFloat s.ll)), ("lp", Json.str (hexOfFloat s.lp)), ("w", Json.str (hexOfFloat s.w))]
+
+def jsonOfOpt {α} (f : α → Json) : Option α → Json
+  | some a => f a
+  | none => Json.null
+
+/-- the transformations of `AFModel/SamplesMore.lean` applied to one reported sample list -/
+def handleXform (j : Json) : Except String Json := do
+  let o := floatSOps
+  let ss ← (← getArr j "samples").toList.mapM sampleOfJson
+  let mut out : List (String × Json) := [("wsum", Json.str (hexOfFloat (weightSum o ss)))]
+  match j.getObjVal? "thr" with
+  | .ok tj =>
+      let above := aboveThreshold o (← floatOfJson tj) ss
+      out := out ++ [("above", Json.arr (above.map jsonOfSample).toArray),
+        ("above_best", jsonOfOpt jsonOfSample (maxSample o above))]
+  | .error _ => pure ()
+  out := out ++ [("best_index", jsonOfOpt (fun (a : Sample Float × Nat) => Json.num a.2) (maxLLIdx o ss)),
+    ("post_index", jsonOfOpt (fun (a : Sample Float × Nat) => Json.num a.2) (maxPostIdx o Float.isNaN ss)),
+    ("minimise", jsonOfOpt (fun (l : List (Sample Float × Nat)) => Json.arr (l.map (fun a =>
+        Json.mkObj [("i", Json.num a.2), ("s", jsonOfSample a.1)])).toArray) (minimise o Float.isNaN ss))]
+  match j.getObjVal? "keys", j.getObjVal? "paths" with
+  | .ok kj, .ok pj =>
+      let keys ← pathsOfJson kj
+      let paths ← pathsOfJson pj
+      let ks := ss.map (toK keys)
+      let w := ks.map (withPathsK paths)
+      let wo := ks.map (withoutPathsK paths)
+      out := out ++ [("with", Json.arr (w.map jsonOfKSample).toArray),
+        ("with_best", jsonOfOpt jsonOfKSample (maxSampleK o w)),
+        ("without", Json.arr (wo.map jsonOfKSample).toArray),
+        ("without_best", jsonOfOpt jsonOfKSample (maxSampleK o wo))]
+  | _, _ => pure ()
+  pure (Json.mkObj out)
+
 def handleC05 (j : Json) : Except String Json := do
   let q ← getStr j "q"
+  if q == "xform" then return (← handleXform j)
   let priors ← match j.getObjVal? "priors" with
     | .ok pj => (← pj.getArr?).toList.mapM fun p => do
         let kind ← getStr p "kind"
@@ -88,6 +130,21 @@ def handleC05 (j : Json) : Except String Json := do
         (← vecOfJson (← j.getObjVal? "lls"))))
     | "drawer" => pure (some (drawerConv o prior (← matOfJson (← j.getObjVal? "params"))
         (← vecOfJson (← j.getObjVal? "posts"))))
+    | "nautilus" => pure (some (nautilusConv o prior (← matOfJson (← j.getObjVal? "points"))
+        (← vecOfJson (← j.getObjVal? "logw")) (← vecOfJson (← j.getObjVal? "logl"))))
+    | "ultranest" => pure (some (ultranestConv prior (← matOfJson (← j.getObjVal? "points"))
+        (← vecOfJson (← j.getObjVal? "logl")) (← vecOfJson (← j.getObjVal? "weights"))))
+    | "zeus" =>
+        let cfg : ZCfg := { zeusSameSlice := (getBool j "same_slice").toOption.getD true }
+        let thin ← getNat j "thin"
+        let chain ← cubeOfJson (← j.getObjVal? "chain")
+        let walkers := (chain.head?.map List.length).getD 0
+        if thin == 0 then pure none   -- Python: ValueError, slice step cannot be zero
+        else if (getBool j "walker_major").toOption.getD false then
+          pure (some (zeusConv cfg o prior (walkerMajor walkers) (walkerMajor walkers) chain
+            (← matOfJson (← j.getObjVal? "logp")) (← getNat j "discard") thin))
+        else pure (some (zeusConv cfg o prior List.flatten List.flatten chain
+          (← matOfJson (← j.getObjVal? "logp")) (← getNat j "discard") thin))
     | "samples" => pure (some (← (← getArr j "samples").toList.mapM sampleOfJson))
     | "init" =>
         let batches ← (← getArr j "batches").toList.mapM fun b => do
